@@ -53,7 +53,7 @@ func (ex *Exec) unop(fr *frame, instr *ssa.UnOp, x value) value {
 	case token.SUB:
 		t := x.(*smt.Term)
 		if t.Sort == smt.SFP {
-			return ex.fpRaw(smt.SFP, "fp.neg", t)
+			return ex.fpNeg(t)
 		}
 		bt, _ := isInteger(instr.X.Type())
 		_, _, bits, signed := intRange(bt)
@@ -258,6 +258,9 @@ func (ex *Exec) eqVal(t types.Type, x, y value) *smt.Term {
 			return b.False
 		}
 		if xv.Sort == smt.SFP {
+			if nx, ny, ok := ex.shadowPair(xv, yv); ok {
+				return b.Eq(nx, ny)
+			}
 			return ex.fpRaw(smt.SBool, "fp.eq", xv, yv)
 		}
 		return b.Eq(xv, yv)
